@@ -31,7 +31,7 @@ func Extract[OF any](
 func UnmarshalCursor[Options any](v string, modifiers ...func(query *InitialPaginatedQuery[Options]) error) (PaginatedQuery[Options], error) {
 	res, err := base64.RawURLEncoding.DecodeString(v)
 	if err != nil {
-		return nil, err
+		return nil, NewErrInvalidQuery("invalid cursor: %s", err)
 	}
 
 	// todo: we should better rely on schema to determine the type of cursor
@@ -40,25 +40,27 @@ func UnmarshalCursor[Options any](v string, modifiers ...func(query *InitialPagi
 	}
 	x := aux{}
 	if err := json.Unmarshal(res, &x); err != nil {
-		return nil, fmt.Errorf("invalid cursor: %w", err)
+		return nil, NewErrInvalidQuery("invalid cursor: %s", err)
 	}
 
-	var q PaginatedQuery[Options]
+	// The cursor is decoded into its concrete type: decoding into the PaginatedQuery interface
+	// would let a JSON null reset it to a nil interface.
+	var (
+		q    PaginatedQuery[Options]
+		root *InitialPaginatedQuery[Options]
+	)
 	if x.Offset != nil { // Offset defined, this is an offset cursor
-		q = &OffsetPaginatedQuery[Options]{}
+		offsetQuery := &OffsetPaginatedQuery[Options]{}
+		if err := json.Unmarshal(res, offsetQuery); err != nil {
+			return nil, NewErrInvalidQuery("invalid cursor: %s", err)
+		}
+		q, root = offsetQuery, &offsetQuery.InitialPaginatedQuery
 	} else {
-		q = &ColumnPaginatedQuery[Options]{}
-	}
-
-	if err := json.Unmarshal(res, &q); err != nil {
-		return nil, err
-	}
-
-	var root *InitialPaginatedQuery[Options]
-	if x.Offset != nil { // Offset defined, this is an offset cursor
-		root = &q.(*OffsetPaginatedQuery[Options]).InitialPaginatedQuery
-	} else {
-		root = &q.(*ColumnPaginatedQuery[Options]).InitialPaginatedQuery
+		columnQuery := &ColumnPaginatedQuery[Options]{}
+		if err := json.Unmarshal(res, columnQuery); err != nil {
+			return nil, NewErrInvalidQuery("invalid cursor: %s", err)
+		}
+		q, root = columnQuery, &columnQuery.InitialPaginatedQuery
 	}
 
 	for _, modifier := range modifiers {
